@@ -23,7 +23,12 @@ def mk_frame(dates, cols, dtype=float):
 
 
 def mk_offset(o):
-    """{"days": n} | {"months": n} | {"hours": n} -> pd.DateOffset"""
+    """{"days": n} | {"months": n} | {"hours": n} -> pd.DateOffset; {"bday": n} / {"monthend": n} -> anchored offsets (with n = 0 they
+    roll a non-anchor date FORWARD when subtracted, e.g. Sunday - BDay(0) = Monday)"""
+    if "bday" in o:
+        return pd.offsets.BDay(o["bday"])
+    if "monthend" in o:
+        return pd.offsets.MonthEnd(o["monthend"])
     return pd.DateOffset(**o)
 
 
